@@ -145,7 +145,7 @@ RULE = ('cell enumeration: %d side-effect-free contexts (guard, guard conjunct, 
         'parameters incl. arrays, fields, forwarding and loops). Each cell gives a model W with the write and a twin R where '
         'the write is replaced by a read of the same shape (of constants, so that compile-time contexts stay legal) or by a '
         'write to the callee\'s own locals / by-value parameters. Oracle: W is rejected (>= 1 error on the document or the '
-        'query), R is accepted (no error). Non-trivial: every cell (each has a W that differs from its R); distinct = (context, form).')
+        'query), R is accepted (no error). A stride of the cells (quick: every 9th, thorough: every 2nd, rotating) is additionally spliced into larger generated models (gen_model.py hosts with all identifiers renamed: other declarations, templates and processes around the cell) and judged the same way. Non-trivial: every cell (each has a W that differs from its R); distinct = (context, form, host).')
 
 
 def build_cells():
@@ -172,29 +172,54 @@ def worker(chk, wi, nw):
     run = cells.Runner(orc, stats)
     C, allc = build_cells()
     mine = [c for k, c in enumerate(allc) if k % nw == wi]
-    items = []
-    for (cname, fname, wdecl, WE, rdecl, RE) in mine:
-        items.append(assemble(C, cname, wdecl, WE))
-        items.append(assemble(C, cname, rdecl, RE))
-    res = run.run_many(items)
-    for k, (cname, fname, wdecl, WE, rdecl, RE) in enumerate(mine):
-        w, r = res[2 * k], res[2 * k + 1]
-        fam = fname.split(':')[0]
-        se = any('side-effect' in m for m in w['errors'] + [m for q in w['query_errors'] for m in q])
-        stats.case(cname + '|' + fname, nontrivial=True,
-                   classes=['context:' + cname, 'form:' + fam, 'W:' + ('rejected' if cells.rejected(w) else 'ACCEPTED'),
-                            'W-message:' + ('side-effect' if se else 'other')],
-                   sample={'context': cname, 'form': fname, 'W': WE, 'W_decl': wdecl[:120], 'W_errors': (w['errors'] + [m for q in w['query_errors'] for m in q])[:2]})
-        if w['crash'] or r['crash']:
-            stats.extra['crashes_seen_(C01)'] += 1
-            continue
-        if not cells.rejected(w):
-            chk.report(stats, {'context': cname, 'form': fname, 'side': 'write-accepted'},
-                       'context %s accepts the write form %s (%s%s)' % (cname, fname, wdecl, WE), {'kind': 'cell', 'context': cname, 'gextra': wdecl, 'E': WE, 'expect': 'rejected'})
-        if cells.rejected(r):
-            chk.report(stats, {'context': cname, 'form': fname, 'side': 'twin-rejected'},
-                       'context %s rejects the side-effect-free twin of %s (%s%s): %r' % (cname, fname, rdecl, RE, (r['errors'] + [m for q in r['query_errors'] for m in q])[:2]),
-                       {'kind': 'cell', 'context': cname, 'gextra': rdecl, 'E': RE, 'expect': 'accepted'})
+
+    def evaluate(subset, extra_classes, embedded):
+        items = []
+        for (cname, fname, wdecl, WE, rdecl, RE) in subset:
+            items.append(assemble(C, cname, wdecl, WE))
+            items.append(assemble(C, cname, rdecl, RE))
+        res = run.run_many(items)
+        for k, (cname, fname, wdecl, WE, rdecl, RE) in enumerate(subset):
+            w, r = res[2 * k], res[2 * k + 1]
+            fam = fname.split(':')[0]
+            se = any('side-effect' in m for m in w['errors'] + [m for q in w['query_errors'] for m in q])
+            stats.case(cname + '|' + fname + ('|' + items[2 * k][0] if embedded else ''), nontrivial=True,
+                       classes=['context:' + cname, 'form:' + fam, 'W:' + ('rejected' if cells.rejected(w) else 'ACCEPTED'),
+                                'W-message:' + ('side-effect' if se else 'other')] + extra_classes,
+                       sample={'context': cname, 'form': fname, 'W': WE, 'W_decl': wdecl[:120], 'embedded': embedded,
+                               'W_errors': (w['errors'] + [m for q in w['query_errors'] for m in q])[:2]})
+            if w['crash'] or r['crash']:
+                stats.extra['crashes_seen_(C01)'] += 1
+                continue
+            tag = '@embedded' if embedded else ''
+            if not cells.rejected(w):
+                chk.report(stats, {'context': cname, 'form': fname, 'side': 'write-accepted' + tag},
+                           'context %s accepts the write form %s (%s%s)%s' % (cname, fname, wdecl, WE, ' inside a larger generated model' if embedded else ''),
+                           {'kind': 'model', 'xml': items[2 * k][0], 'queries': items[2 * k][1], 'expect': 'rejected'})
+            if cells.rejected(r):
+                chk.report(stats, {'context': cname, 'form': fname, 'side': 'twin-rejected' + tag},
+                           'context %s rejects the side-effect-free twin of %s (%s%s)%s: %r' % (cname, fname, rdecl, RE, ' inside a larger generated model' if embedded else '',
+                                                                                              (r['errors'] + [m for q in r['query_errors'] for m in q])[:2]),
+                           {'kind': 'model', 'xml': items[2 * k + 1][0], 'queries': items[2 * k + 1][1], 'expect': 'accepted'})
+
+    evaluate(mine, [], False)
+
+    # the same cells spliced into larger generated models (other declarations, templates, processes around them)
+    import gen_model as M
+    from hypothesis import strategies as st
+    stride = 9 if chk.tier == 'quick' else 2
+    smc = ('query-probability', 'query-simulate')     # a host may declare handshake channels, which SMC queries refuse for reasons of their own
+
+    def test(args):
+        m, off = args
+        host = cells.host_from_model(m, off)
+        subset = [c for c in mine[off % stride::stride] if c[0] not in smc]
+        with cells.embedding(host):
+            evaluate(subset, ['embedded'], True)
+        return None
+
+    common.run_hypothesis(chk, stats, st.tuples(M.models(need_clean=True, max_templates=2), st.integers(0, 1000)), test, 3 if chk.tier == 'quick' else 20,
+                          chk.seed * 1000 + wi, shrink=False)
     orc.close()
     return stats
 
@@ -203,13 +228,18 @@ def confirm(case):
     orc = oracle.Oracle(os.path.join(common.WORK, 'C11', 'confirm'), cpu_limit=30)
     try:
         run = cells.Runner(orc, common.Stats())
-        C = contexts()
-        d = run.run_many([assemble(C, case['context'], case['gextra'], case['E'])])[0]
+        if case.get('kind') == 'model':
+            d = run.run_many([(case['xml'], case.get('queries'))])[0]
+            what = 'model'
+        else:
+            C = contexts()
+            d = run.run_many([assemble(C, case['context'], case['gextra'], case['E'])])[0]
+            what = '%s %s%s' % (case['context'], case['gextra'], case['E'])
         rej = cells.rejected(d)
         if case['expect'] == 'rejected' and not rej:
-            return ({}, 'accepted: %s %s%s' % (case['context'], case['gextra'], case['E']))
+            return ({}, 'accepted: ' + what)
         if case['expect'] == 'accepted' and rej:
-            return ({}, 'rejected: %s %s%s %r' % (case['context'], case['gextra'], case['E'], d['errors'][:2] + d['query_errors'][:1]))
+            return ({}, 'rejected: %s %r' % (what, d['errors'][:2] + d['query_errors'][:1]))
         return None
     finally:
         orc.close()
